@@ -311,9 +311,12 @@ def _named_sets(ctx):
                 if c.tag == 'roCreate':
                     da.add(id(c))
         elif kind == 'RunningOrderEnd':
-            for c in av.root:
-                if c.tag == 'mosromgrmeta':
-                    da.add(id(c))
+            # the completion record is what the message brings - unless the running order was completed
+            # already (then the message is refused and names nothing)
+            if not bv.completed:
+                for c in av.root:
+                    if c.tag == 'mosromgrmeta':
+                        da.add(id(c))
     return db, da, moved
 
 
@@ -566,8 +569,10 @@ def mon_completion(ctx, res):
     obs = ctx.obs
     case = ctx.case
     kind = case['kind']
-    if obs.phase in ('parse-ro', 'parse-msg') and obs.exc:
-        yield (f'{kind}:unparsed:{obs.exc}', f'{_case_str(case)}: {obs.phase} failed: {obs.exc}: {obs.exc_msg}')
+    if obs.phase == 'parse-msg' and obs.exc:
+        return      # a message that cannot be classified is C08/C12's business, not a completion fault
+    if obs.phase == 'parse-ro' and obs.exc:
+        yield (f'{kind}:state-unreadable:{obs.exc}', f'reachable running order does not read back: {obs.exc}: {obs.exc_msg}')
         return
     bv = ctx.view
     ro = ctx.ro_obj
